@@ -29,4 +29,7 @@ static inline void do_yields(int n) { for (int i = 0; i < n; i++) { myth_yield()
 #define HIT(id) (mv_hits[(id)])
 #define SWHIT(id) (mv_switch_hits[(id)])
 
+/* a call that is successful by construction must say so: these functions are documented to return zero on success */
+#define Z0(call) do { int z0_ = (call); if (z0_ != 0) mt_fail("%s returned %d although it succeeded (documented: zero on success)", #call, z0_); } while (0)
+
 #endif
